@@ -18,7 +18,10 @@ tvars == <<vars, l, noteLines>>
 
 Ev == TLog[l]
 \* a call that panicked is recorded with a "panic" field: no action admits it (C20)
-Is(ops) == l <= Len(TLog) /\ Ev.op \in ops /\ "panic" \notin DOMAIN Ev /\ l' = l + 1
+\* C19: an event of a product run carries one digest of (operation, arguments,
+\* results) per storage configuration; all configurations must agree
+AltOK == "alt" \in DOMAIN Ev => \A j \in 1..Len(Ev.alt) : Ev.alt[j] = Ev.alt[1]
+Is(ops) == l <= Len(TLog) /\ Ev.op \in ops /\ "panic" \notin DOMAIN Ev /\ AltOK /\ l' = l + 1
 
 \* decode a recorded observation into the comparable form of Nuts!Obs*
 ObsOf(o) ==
